@@ -46,11 +46,11 @@ KEYS = tuple(FLOORS["quick"].keys()) + ("monitor_cases", "red_cases", "port_case
 
 
 def plan(tier):
-    return {"shards": 4, "timeout": 900} if tier == "quick" else {"shards": 16, "timeout": 3000}
+    return {"shards": 4, "timeout": 900} if tier == "quick" else {"shards": 16, "timeout": 3400}
 
 
 def ncases(tier):
-    return 700 if tier == "quick" else 6000
+    return 700 if tier == "quick" else 12000
 
 
 def gen_case(rng, i):
